@@ -164,4 +164,5 @@ func registerIntrinsics(vm *VM) {
 	registerZZ(vm)
 	registerParser(vm)
 	registerMisc(vm)
+	registerUTF8(vm)
 }
